@@ -849,3 +849,27 @@ def c05o(F, R):
                     R.ok(key, detail="the walk is left after a diagnostic was pushed in the same block", where=loc(br))
                 else:
                     R.bad(f"{label}|silent-exit", f"{label} leaves its walk over the graph without having reported anything in that block: the lint stops at the first node that takes this path, silently, and reports nothing for the rest of the program either", loc(br))
+
+
+@rule("C05", "C05.p.every-load-and-store-names-its-address", floor=4)
+def c05p(F, R):
+    """the stack lints ask each node for the address it accesses (`uses_memory_location`): every load and every store answers with its base register and offset - whatever the stored register. A version that goes through a helper which leaves out stores of x0 makes `sw zero, 4(sp)` above the entry stack pointer invisible to the stack-offset lint"""
+    from .nodeprops import eval_prop_full, Unx
+    from .p_cfg import PNODE
+    gp = F.fn(F.method(PNODE, "uses_memory_location", trait="InstructionProperties"))
+    for kind, env, what in (("Store", {"inst": "Sw", "rs1": "X2", "rs2": "X5", "imm": 8}, "sw t0, 8(sp)"),
+                            ("Store", {"inst": "Sw", "rs1": "X2", "rs2": "X0", "imm": 8}, "sw zero, 8(sp)"),
+                            ("Store", {"inst": "Sb", "rs1": "X6", "rs2": "X2", "imm": 8}, "sb sp, 8(t1)"),
+                            ("Load", {"inst": "Lw", "rs1": "X2", "rd": "X5", "imm": 8}, "lw t0, 8(sp)"),
+                            ("Load", {"inst": "Lw", "rs1": "X2", "rd": "X0", "imm": 8}, "lw zero, 8(sp)")):
+        key = f"{kind}|{what}"
+        try:
+            r = eval_prop_full(F, "uses_memory_location", kind, env, trait="InstructionProperties")
+        except Unx as ex:
+            R.bad(key + "|unextractable", f"UNEXTRACTABLE: uses_memory_location for `{what}` ({ex})", gp["sp"])
+            continue
+        want = ("some", (env["rs1"], env["imm"]))
+        if r == want:
+            R.ok(key, detail=f"`{what}` accesses {env['imm']}({env['rs1']})")
+        else:
+            R.bad(key, f"`{what}`: uses_memory_location answers {r}, not the base register and offset of the access: the stack lints (offset at or above the entry sp, garbage read exemption) do not see this access", gp["sp"])
